@@ -132,6 +132,10 @@ class FnTrans:
                 if ty == dst: return t, ty, p
                 if ty == "Bool" and dst == "Int": return "(if %s then (1 : Int) else 0)" % t, "Int", p
                 if ty == "Nat" and dst == "Int": return "((%s : Nat) : Int)" % t, "Int", p
+                lit = inner[0]
+                while lit.get("kind") in ("ParenExpr",): lit = lit["inner"][0]
+                if ty == "Int" and dst == "Nat" and lit.get("kind") == "IntegerLiteral" and int(lit["value"]) >= 0:
+                    return "(%s : Nat)" % lit["value"], "Nat", p
                 raise Unsupported("%s: integral cast %s -> %s" % (self.name, ty, dst))
             raise Unsupported("%s: cast kind %s" % (self.name, ck))
         if k == "IntegerLiteral":
@@ -186,6 +190,9 @@ class FnTrans:
                 if ta != tb: raise Unsupported("%s: mixed arithmetic %s %s %s" % (self.name, ta, op, tb))
                 if op == "/" and ta != "Rat": raise Unsupported("%s: integer division" % self.name)
                 return "(%s %s %s)" % (a, op, b), ta, self.conj(pa, pb)
+            if op in ("|", "&"):
+                if ta != "Nat" or tb != "Nat": raise Unsupported("%s: bit operator on %s" % (self.name, ta))
+                return "(%s %s %s)" % (a, {"|": "|||", "&": "&&&"}[op], b), "Nat", self.conj(pa, pb)
             if op == "%":
                 if ta != "Nat" or tb != "Nat": raise Unsupported("%s: %% on %s" % (self.name, ta))
                 return "(%s %% %s)" % (a, b), ta, self.conj(pa, pb)
@@ -287,6 +294,10 @@ class FnTrans:
             lhs = n["inner"][0]
             while lhs.get("kind") in ("ParenExpr", "UnaryOperator", "ImplicitCastExpr"): lhs = lhs["inner"][0]
             if lhs.get("kind") == "DeclRefExpr": acc.add(lhs["referencedDecl"]["name"])
+        if k == "UnaryOperator" and n.get("opcode") in ("++", "--"):
+            t = n["inner"][0]
+            while t.get("kind") in ("ParenExpr",): t = t["inner"][0]
+            if t.get("kind") == "DeclRefExpr": acc.add(t["referencedDecl"]["name"])
         for c in n.get("inner", []):
             if isinstance(c, dict): self.assigned_vars(c, acc)
         return acc
@@ -360,6 +371,8 @@ class FnTrans:
                 op = s["opcode"][:-1]
                 cur = env[cn]["lean"]
                 if op in ("+", "-", "*", "/"): t = "(%s %s %s)" % (cur, op, t)
+                elif op == "|" and env[cn]["type"] == "Nat": t = "(%s ||| %s)" % (cur, t)
+                elif op == "&" and env[cn]["type"] == "Nat": t = "(%s &&& %s)" % (cur, t)
                 elif op == "|" and env[cn]["type"] == "Bool": t = "(%s || %s)" % (cur, t)
                 elif op == "&" and env[cn]["type"] == "Bool": t = "(%s && %s)" % (cur, t)
                 else: raise Unsupported("%s: compound op %s" % (self.name, s["opcode"]))
@@ -371,6 +384,20 @@ class FnTrans:
             v, pp = nxt(env)
             head = "let %s : %s := %s\n%s" % (ln, ty, t, pad)
             return head + v, head + (("(%s) &&\n%s" % (p, pad)) if p else "") + pp
+        if k == "UnaryOperator" and s.get("opcode") in ("++", "--"):
+            tgt = s["inner"][0]
+            while tgt.get("kind") in ("ParenExpr",): tgt = tgt["inner"][0]
+            if tgt.get("kind") != "DeclRefExpr": raise Unsupported("%s: ++ target" % self.name)
+            cn = tgt["referencedDecl"]["name"]
+            ty = env[cn]["type"]
+            if s["opcode"] == "--" and ty == "Nat": raise Unsupported("%s: -- on unsigned" % self.name)
+            env = dict(env)
+            cur = env[cn]["lean"]
+            ln = self.fresh(cn)
+            env[cn] = dict(lean=ln, type=ty)
+            v, pp = nxt(env)
+            head = "let %s : %s := (%s %s 1)\n%s" % (ln, ty, cur, "+" if s["opcode"] == "++" else "-", pad)
+            return head + v, head + pp
         if k == "ReturnStmt":
             inner = [c for c in s.get("inner", []) if isinstance(c, dict)]
             if inner:
